@@ -279,6 +279,8 @@ class Gen:
         self.cur_layer = 2
         self.locals_ctr = 0
         self.strctr = 0
+        self.notify_handlers = True
+        self.notify_after = None
 
     # ---- helpers
     def fresh_str(self, tag="s"):
@@ -671,6 +673,13 @@ class Gen:
                 ("renamed", "onRenamed", [("QString", "string"), ("int", "int")], 1)]
         if cls == "SimPanel":
             sigs.append(("raised", "onRaised", [("int", "int")], 0))
+        if cls in ("SimWidget", "SimPanel") and self.notify_handlers:
+            # handlers on the notify signals of sources: they run inside setters, nested in whatever caused the change.
+            # textChanged has the entries textChanged() and textChanged(QString), which qmluic takes for default-argument clones
+            sigs += [("intValChanged", "onIntValChanged", [("int", "int")], "notify"), ("flagChanged", "onFlagChanged", [("bool", "bool")], "notify"),
+                     ("textChanged", "onTextChanged", [("QString", "string")], "notify")]
+            if cls == "SimPanel":
+                sigs.append(("levelChanged", "onLevelChanged", [("int", "int")], "notify"))
         if cls == "QDialog":
             sigs = [("accepted", "onAccepted", [], 0), ("rejected", "onRejected", [], 0), ("finished", "onFinished", [("int", "int")], 0)]
         if cls == "QWidget":
@@ -679,7 +688,8 @@ class Gen:
         sigs = [s for s in sigs if s[0] not in taken]
         if not sigs:
             return None
-        name, on, args, _ = r.choice(sigs)
+        name, on, args, tag = r.choice(sigs)
+        is_notify = tag == "notify"
         nparams = r.randint(0, len(args))
         form = "function" if nparams > 0 else r.choice(["function", "block", "expr"])
         params = []
@@ -691,6 +701,12 @@ class Gen:
         sigkey = "%s(%s)" % (name, ",".join(a[0] for a in args))
         save = (self.cur_owner, self.cur_layer, self.owner_cls)
         self.cur_owner, self.cur_layer, self.owner_cls = owner.get("id"), 3, cls
+        # a notify handler may only act on objects later in document order (so nested deliveries cannot recurse)
+        # and reads no bound property (whether a binding ran before or after the handler is connection order, not semantics)
+        self.notify_after = None
+        if is_notify:
+            idx = self.objs.index(owner) if owner in self.objs else len(self.objs)
+            self.notify_after = [o["id"] for o in self.objs[idx + 1:] if o.get("id")]
         try:
             if form == "expr":
                 body = {"kind": "expr_stmt", "stmt": self.handler_stmt(simple=True)}
@@ -699,7 +715,8 @@ class Gen:
         finally:
             self.cur_owner, self.cur_layer, self.owner_cls = save
             self.param_env = {}
-        return {"signal": name, "sigkey": sigkey, "on": on, "params": params, "form": form, "body": body, "argtypes": [a[1] for a in args]}
+            self.notify_after = None
+        return {"notify": is_notify, "signal": name, "sigkey": sigkey, "on": on, "params": params, "form": form, "body": body, "argtypes": [a[1] for a in args]}
 
     def hval(self, ty):
         """value expression inside a handler: parameters, literals, reads of any layer"""
@@ -721,6 +738,8 @@ class Gen:
         for i, c in self.named:
             for p in sc.all_props(c):
                 if TY_OF.get(p["type"]) == ty and p["name"] not in ("silentVal",) and (p["notify"] or p["layer"] == 2 or p["constant"]):
+                    if self.notify_after is not None and p["layer"] != 0:
+                        continue
                     if p["layer"] in (1, 2) and not self.is_bound(i, p["name"]):
                         continue
                     cands.append(["prop", ["obj", i], p["name"]])
@@ -739,6 +758,11 @@ class Gen:
         k = r.weighted([(5, "set"), (3, "call"), (3, "log")])
         targets = [(i, c) for i, c in self.named]
         this_ok = self.owner_cls in ("SimWidget", "SimPanel")
+        if self.notify_after is not None:
+            targets = [(i, c) for i, c in self.named if i in self.notify_after]
+            this_ok = False
+            if not targets:
+                k = "log"
         if k == "set":
             i, c = r.choice(targets)
             use_this = this_ok and r.chance(0.25)
@@ -795,7 +819,11 @@ class Gen:
                 self.locals_ctr += 1
                 v = "h%d" % self.locals_ctr
                 out.append(["let", v, self.hval("int")])
-                out.append(["setprop", ["obj", r.choice(self.named)[0]], "intVal", ["bin", "int", "+", ["local", v], ["lit", "int", 1]]])
+                tg = [i for i, c in self.named if self.notify_after is None or i in self.notify_after]
+                if tg:
+                    out.append(["setprop", ["obj", r.choice(tg)], "intVal", ["bin", "int", "+", ["local", v], ["lit", "int", 1]]])
+                else:
+                    out.append(["log", "debug", [["local", v]], "debug"])
             else:
                 out.append(["if", self.hval("bool"), [["return", None]], None])   # early return skips the rest
         return out
